@@ -1,8 +1,18 @@
 """Helpers shared by drivers that run inside the runtime-only interpreter (stdlib + httpx + cattrs only)."""
+import asyncio
+import base64
+import dataclasses
+import datetime
+import enum
 import importlib
+import inspect
+import io
+import json
 import os
 import re
 import sys
+import typing
+import uuid
 
 
 def modules_under(root, package):
@@ -23,14 +33,18 @@ def modules_under(root, package):
     return out
 
 
-def norm_exc(e):
-    """exception normalised for signatures: identifiers in quotes, paths and numbers abstracted"""
-    msg = str(e)
+def norm_msg(msg):
+    msg = str(msg)
     msg = re.sub(r"'[^']*'", "'*'", msg)
     msg = re.sub(r'"[^"]*"', '"*"', msg)
     msg = re.sub(r"\(?/[\w/.\-]+\)?", "<path>", msg)
     msg = re.sub(r"\d+", "N", msg)
-    return f"{type(e).__name__}: {msg[:160]}"
+    return msg[:160]
+
+
+def norm_exc(e):
+    """exception normalised for signatures: identifiers in quotes, paths and numbers abstracted"""
+    return f"{type(e).__name__}: {norm_msg(e)}"
 
 
 def try_import(name):
@@ -40,3 +54,391 @@ def try_import(name):
         if isinstance(e, (KeyboardInterrupt, SystemExit, TimeoutError)):
             raise
         return None, e
+
+
+# ----------------------------------------------------------------------------------------------
+# values: JSON <-> typed python values, without using the package's own converter
+# ----------------------------------------------------------------------------------------------
+def hints_of(obj):
+    try:
+        return typing.get_type_hints(obj, include_extras=False)
+    except Exception:
+        try:
+            return dict(getattr(obj, "__annotations__", {}))
+        except Exception:
+            return {}
+
+
+def strip_optional(t):
+    origin = typing.get_origin(t)
+    if origin is typing.Union or (origin is not None and str(origin) == "<class 'types.UnionType'>"):
+        args = [a for a in typing.get_args(t) if a is not type(None)]
+        return args, True
+    return [t], False
+
+
+def wire_maps(cls):
+    meta = getattr(cls, "Meta", None)
+    load = getattr(meta, "key_transform_with_load", None) if meta else None
+    dump = getattr(meta, "key_transform_with_dump", None) if meta else None
+    return (load or {}), (dump or {})
+
+
+def build_value(t, j, depth=0):
+    """construct a python value of annotation `t` from JSON value `j` (harness-side, boring)"""
+    if isinstance(j, dict) and set(j) == {"$bytes"}:
+        return base64.b64decode(j["$bytes"])
+    if isinstance(j, dict) and set(j) == {"$file"}:
+        return io.BytesIO(base64.b64decode(j["$file"]))
+    if isinstance(j, dict) and set(j) == {"$files"}:
+        return {k: io.BytesIO(base64.b64decode(v)) for k, v in j["$files"].items()}
+    if t is typing.Any or t is None or t is inspect.Parameter.empty or isinstance(t, str):
+        return j
+    alts, _ = strip_optional(t)
+    if j is None:
+        return None
+    if len(alts) > 1:
+        last = None
+        for a in alts:
+            try:
+                v = build_value(a, j, depth + 1)
+                if conforms(v, a):
+                    return v
+            except Exception as e:  # noqa
+                last = e
+        if last:
+            raise last
+        return j
+    t = alts[0]
+    origin = typing.get_origin(t)
+    if origin is typing.Annotated:
+        return build_value(typing.get_args(t)[0], j, depth + 1)
+    if origin in (list, typing.List, set, tuple) or t is list:
+        args = typing.get_args(t)
+        return [build_value(args[0] if args else typing.Any, x, depth + 1) for x in j]
+    if origin in (dict, typing.Dict) or t is dict:
+        args = typing.get_args(t)
+        vt = args[1] if len(args) == 2 else typing.Any
+        return {k: build_value(vt, v, depth + 1) for k, v in j.items()}
+    if origin is typing.Literal:
+        return j
+    if inspect.isclass(t):
+        if issubclass(t, enum.Enum):
+            return t(j)
+        if t is datetime.datetime:
+            return datetime.datetime.fromisoformat(j.replace("Z", "+00:00")) if isinstance(j, str) else j
+        if t is datetime.date:
+            return datetime.date.fromisoformat(j) if isinstance(j, str) else j
+        if t is datetime.time:
+            return datetime.time.fromisoformat(j) if isinstance(j, str) else j
+        if t is uuid.UUID:
+            return uuid.UUID(j) if isinstance(j, str) else j
+        if t is bytes:
+            return j.encode() if isinstance(j, str) else j
+        if dataclasses.is_dataclass(t):
+            if not isinstance(j, dict):
+                raise TypeError(f"cannot build {t.__name__} from {type(j).__name__}")
+            fields = {f.name: f for f in dataclasses.fields(t)}
+            if list(fields) == ["_data"]:
+                hints = hints_of(t)
+                return t(_data=build_value(hints.get("_data", dict), j, depth + 1))
+            load, _ = wire_maps(t)
+            hints = hints_of(t)
+            kw = {}
+            for k, v in j.items():
+                py = load.get(k, k)
+                if py in fields:
+                    kw[py] = build_value(hints.get(py, typing.Any), v, depth + 1)
+            return t(**kw)
+        if t in (int, float, str, bool):
+            return j
+    return j
+
+
+def conforms(v, t):
+    """is python value v an instance of annotation t (structurally)?"""
+    if t is typing.Any or t is inspect.Parameter.empty or isinstance(t, str):
+        return True
+    if t is None or t is type(None):
+        return v is None
+    alts, opt = strip_optional(t)
+    if v is None:
+        return opt or type(None) in typing.get_args(t)
+    if len(alts) > 1:
+        return any(conforms(v, a) for a in alts)
+    t = alts[0]
+    origin = typing.get_origin(t)
+    if origin is typing.Annotated:
+        return conforms(v, typing.get_args(t)[0])
+    if origin in (list, typing.List) or t is list:
+        args = typing.get_args(t)
+        return isinstance(v, list) and all(conforms(x, args[0] if args else typing.Any) for x in v)
+    if origin in (dict, typing.Dict) or t is dict:
+        args = typing.get_args(t)
+        return isinstance(v, dict) and all(conforms(x, args[1] if len(args) == 2 else typing.Any) for x in v.values())
+    if origin is typing.Literal:
+        return v in typing.get_args(t)
+    if origin is not None:
+        try:
+            return isinstance(v, origin)
+        except TypeError:
+            return True
+    if inspect.isclass(t):
+        if t is float:
+            return isinstance(v, (int, float)) and not isinstance(v, bool)
+        if t is int:
+            return isinstance(v, int) and not isinstance(v, bool)
+        try:
+            return isinstance(v, t)
+        except TypeError:
+            return True
+    return True
+
+
+def to_json(v, depth=0):
+    """python value -> JSON by wire keys (harness-side; not the package's converter)"""
+    if depth > 30:
+        return "<deep>"
+    if v is None or isinstance(v, (bool, int, float, str)):
+        return v
+    if isinstance(v, enum.Enum):
+        return v.value
+    if isinstance(v, (datetime.datetime, datetime.date, datetime.time)):
+        return {"$iso": v.isoformat(), "$type": type(v).__name__}
+    if isinstance(v, uuid.UUID):
+        return {"$iso": str(v), "$type": "UUID"}
+    if isinstance(v, (bytes, bytearray)):
+        return {"$bytes": base64.b64encode(bytes(v)).decode()}
+    if isinstance(v, (list, tuple)):
+        return [to_json(x, depth + 1) for x in v]
+    if isinstance(v, dict):
+        return {str(k): to_json(x, depth + 1) for k, x in v.items()}
+    if dataclasses.is_dataclass(v) and not isinstance(v, type):
+        fields = dataclasses.fields(v)
+        if [f.name for f in fields] == ["_data"]:
+            return to_json(v._data, depth + 1)
+        _, dump = wire_maps(type(v))
+        return {dump.get(f.name, f.name): to_json(getattr(v, f.name), depth + 1) for f in fields}
+    return {"$repr": repr(v)[:200], "$type": type(v).__name__}
+
+
+def type_name(v):
+    return type(v).__name__
+
+
+def synth(t, depth=0, variant=0):
+    """a plausible value of annotation t (used to call methods whose arguments do not matter)"""
+    if t is typing.Any or t is inspect.Parameter.empty or isinstance(t, str) or t is None:
+        return "x"
+    alts, opt = strip_optional(t)
+    t = alts[0]
+    origin = typing.get_origin(t)
+    if origin is typing.Annotated:
+        return synth(typing.get_args(t)[0], depth + 1)
+    if origin in (list, typing.List) or t is list:
+        args = typing.get_args(t)
+        return [synth(args[0], depth + 1)] if args and depth < 4 else []
+    if origin in (dict, typing.Dict) or t is dict:
+        args = typing.get_args(t)
+        if len(args) == 2 and depth < 4:
+            if "IO" in str(args[1]):
+                return {"file": io.BytesIO(b"data")}
+            return {"k": synth(args[1], depth + 1)}
+        return {}
+    if origin is typing.Literal:
+        return typing.get_args(t)[0]
+    if inspect.isclass(t):
+        if issubclass(t, enum.Enum):
+            return list(t)[0]
+        if t is bool:
+            return True
+        if t is int:
+            return 1
+        if t is float:
+            return 1.5
+        if t is str:
+            return "x"
+        if t is bytes:
+            return b"x"
+        if t is datetime.datetime:
+            return datetime.datetime(2020, 1, 2, 3, 4, 5, tzinfo=datetime.timezone.utc)
+        if t is datetime.date:
+            return datetime.date(2020, 1, 2)
+        if t is datetime.time:
+            return datetime.time(3, 4, 5)
+        if t is uuid.UUID:
+            return uuid.UUID("123e4567-e89b-12d3-a456-426614174000")
+        if dataclasses.is_dataclass(t):
+            if depth > 4:
+                return None
+            hints = hints_of(t)
+            kw = {}
+            for f in dataclasses.fields(t):
+                if f.default is dataclasses.MISSING and f.default_factory is dataclasses.MISSING:
+                    kw[f.name] = synth(hints.get(f.name, typing.Any), depth + 1)
+            try:
+                return t(**kw)
+            except Exception:
+                return None
+    return "x"
+
+
+# ----------------------------------------------------------------------------------------------
+# running generated clients against a scripted in-memory server
+# ----------------------------------------------------------------------------------------------
+_LOOP = None
+
+
+def run(coro):
+    global _LOOP
+    if _LOOP is None:
+        _LOOP = asyncio.new_event_loop()
+        asyncio.set_event_loop(_LOOP)
+    return _LOOP.run_until_complete(coro)
+
+
+class Server:
+    """httpx.MockTransport handler that records every request and answers with a scripted response"""
+
+    def __init__(self):
+        self.requests = []
+        self.script = {"status": 200, "headers": {}, "body": b""}
+
+    def set(self, status=200, headers=None, body=b"", chunks=None):
+        self.script = {"status": status, "headers": dict(headers or {}), "body": body, "chunks": chunks}
+
+    def handler(self, request):
+        import httpx
+
+        try:
+            content = request.read()
+        except Exception:
+            content = b""
+        self.requests.append({
+            "method": request.method,
+            "path": request.url.raw_path.decode("ascii", "replace").split("?")[0],
+            "query": [[k, v] for k, v in request.url.params.multi_items()],
+            "raw_query": request.url.query.decode("ascii", "replace"),
+            "headers": [[k, v] for k, v in request.headers.multi_items()],
+            "body_b64": base64.b64encode(content).decode(),
+        })
+        s = self.script
+        if s.get("chunks") is not None:
+            chunks = s["chunks"]
+
+            class BS(httpx.AsyncByteStream):
+                async def __aiter__(self_inner):
+                    for c in chunks:
+                        yield c
+
+            return httpx.Response(s["status"], headers=s["headers"], stream=BS())
+        return httpx.Response(s["status"], headers=s["headers"], content=s["body"])
+
+
+def install_mock(server):
+    """every httpx.AsyncClient constructed from now on talks to `server` (no private attribute of the bundled
+    transport is touched)"""
+    import httpx
+
+    real = httpx.AsyncClient
+    mock = httpx.MockTransport(server.handler)
+
+    class PatchedAsyncClient(real):
+        def __init__(self, *a, **kw):
+            kw["transport"] = mock
+            super().__init__(*a, **kw)
+
+    httpx.AsyncClient = PatchedAsyncClient
+    return real
+
+
+def make_client(package, core_package, server, transport_kind="bundled", base_url="http://h.test/api", transport_kwargs=None):
+    client_mod = importlib.import_module(package + ".client")
+    cfg_mod = importlib.import_module(core_package + ".config")
+    ht = importlib.import_module(core_package + ".http_transport")
+    install_mock(server)
+    cfg = cfg_mod.ClientConfig(base_url=base_url)
+    if transport_kind == "bundled":
+        tr = ht.HttpxTransport(base_url, **(transport_kwargs or {}))
+    elif transport_kind == "default":
+        tr = None
+    else:
+        import httpx
+
+        class PassThrough:
+            """a custom transport that returns every response unraised (6 lines)"""
+
+            def __init__(self):
+                self.c = httpx.AsyncClient(base_url=base_url)
+
+            async def request(self, method, url, **kw):
+                return await self.c.request(method, url, **kw)
+
+            async def close(self):
+                await self.c.aclose()
+
+        tr = PassThrough()
+    return client_mod.APIClient(cfg, transport=tr) if tr is not None else client_mod.APIClient(cfg)
+
+
+def exc_info(e, core_package):
+    info = {"type": type(e).__name__, "mro": [c.__name__ for c in type(e).__mro__], "msg": str(e)[:300]}
+    try:
+        exc_mod = importlib.import_module(core_package + ".exceptions")
+        info["is_HTTPError"] = isinstance(e, exc_mod.HTTPError)
+        info["is_ClientError"] = isinstance(e, exc_mod.ClientError)
+        info["is_ServerError"] = isinstance(e, exc_mod.ServerError)
+    except Exception as x:  # noqa
+        info["exc_mod_error"] = str(x)
+    sc = getattr(e, "status_code", None)
+    info["status_code"] = sc if isinstance(sc, int) else None
+    resp = getattr(e, "response", None)
+    info["response_status"] = getattr(resp, "status_code", None) if resp is not None else None
+    return info
+
+
+def call_method(meth, kwargs, iterate_limit=50):
+    """call a generated method; returns {"kind": "return"/"items"/"raise", ...} with harness-side JSON of the value"""
+    try:
+        if inspect.isasyncgenfunction(meth):
+            async def collect():
+                out = []
+                async for it in meth(**kwargs):
+                    out.append(it)
+                    if len(out) > iterate_limit:
+                        break
+                return out
+
+            items = run(collect())
+            return {"kind": "items", "values": items}
+        res = meth(**kwargs)
+        if inspect.isawaitable(res):
+            res = run(res)
+        elif hasattr(res, "__aiter__"):
+            async def collect2():
+                out = []
+                async for it in res:
+                    out.append(it)
+                    if len(out) > iterate_limit:
+                        break
+                return out
+
+            return {"kind": "items", "values": run(collect2())}
+        return {"kind": "return", "value": res}
+    except BaseException as e:  # noqa
+        if isinstance(e, (KeyboardInterrupt, SystemExit, TimeoutError)):
+            raise
+        return {"kind": "raise", "exc": e}
+
+
+def public_methods(obj):
+    """(name, function) of the operation methods of a tag client instance/class"""
+    out = []
+    cls = obj if inspect.isclass(obj) else type(obj)
+    for name, member in inspect.getmembers(cls):
+        if name.startswith("__"):
+            continue
+        if inspect.isfunction(member) and (inspect.iscoroutinefunction(member) or inspect.isasyncgenfunction(member)
+                                           or "AsyncIterator" in str(hints_of(member).get("return", ""))):
+            out.append((name, member))
+    return out
